@@ -114,3 +114,81 @@ Qed.
 Theorem cache_coherent c n0 ini tr sf hs n strat X : run c (init_st n0 ini) tr = Some (sf, hs) ->
   cache sf = Some (n, strat, X) -> incl X (sampled sf).
 Proof. intros H. apply (run_cache_ok c tr _ sf hs H). intros ? ? ? E. cbn in E. discriminate. Qed.
+
+(* ---------------- nothing ever leaves sampled: whatever was handed out stays known to the duplicate filter, also across a warm start
+   (fit_surrogate = a tell) in the middle of a history ---------------- *)
+Theorem accept_sampled_ext c s e s' h b : accept c s e = inl (s', h, b) -> exists l, sampled s' = sampled s ++ l.
+Proof.
+  intros H. destruct e as [n strat cl out|n_ok cl|cl]; unfold accept in H.
+  - destruct (Nat.leb n 1).
+    + destruct (initial_phase c s).
+      * destruct (inits s) as [|i0 rest].
+        -- destruct cl as [|cand [|? ?]]; try discriminate.
+           destruct (filter_dup (sampled s) cand) as [|x0 fl]; destruct out as [|x [|? ?]]; try discriminate.
+           destruct (Z.eqb x x0); [|discriminate]. injection H as <- _ _. eexists; reflexivity.
+        -- destruct cl; destruct out as [|x [|? ?]]; try discriminate.
+           destruct (Z.eqb x i0); [|discriminate]. injection H as <- _ _. eexists; reflexivity.
+      * destruct cl; destruct out as [|x [|? ?]]; try discriminate.
+        destruct (next s); try discriminate.
+        all: destruct (use_next c s x) as [[nx h0]|]; [|discriminate]; injection H as <- _ _; eexists; reflexivity.
+    + destruct (initial_phase c s).
+      * destruct cl as [|cand [|? ?]]; try discriminate. cbv zeta in H.
+        destruct (eqlz out _); [|discriminate]. injection H as <- _ _. eexists; reflexivity.
+      * destruct (is_oneshot strat && match next s with NoNext => false | _ => true end).
+        { destruct cl; [|discriminate]. injection H as <- _ _. eexists; reflexivity. }
+        destruct (is_qlcb strat && has_model s).
+        { destruct cl as [|cand [|? ?]]; destruct out as [|x0 rest]; try discriminate.
+          destruct (negb (Nat.eqb (length (x0 :: rest)) n)); [discriminate|].
+          destruct (use_next c s x0) as [[nx h0]|]; [|destruct (next s); discriminate].
+          destruct (fixed c).
+          - destruct (chain _ (sampled s ++ [x0]) (repeat cand (length rest)) rest); [|discriminate].
+            injection H as <- _ _. eexists; reflexivity.
+          - destruct (forallb _ rest); [|discriminate]. injection H as <- _ _. exists []. cbn. rewrite app_nil_r. reflexivity. }
+        destruct (cache_hit s n strat) as [X|].
+        { destruct cl; [|discriminate]. destruct (eqlz out X); [|discriminate]. injection H as <- _ _.
+          exists []. cbn. rewrite app_nil_r. reflexivity. }
+        destruct (next s); [discriminate| |].
+        all: destruct (negb (Nat.eqb (length out) n)); [discriminate|];
+          destruct (negb (Nat.eqb (length cl) n)); [discriminate|];
+          destruct (chain c (sampled s) cl out); [|discriminate]; injection H as <- _ _; eexists; reflexivity.
+  - cbv zeta in H. destruct ((n_init s - Z.of_nat n_ok <=? 0) && negb (dummy c)).
+    + destruct cl as [|cand [|? ?]]; try discriminate. injection H as <- _ _. exists []. cbn. rewrite app_nil_r. reflexivity.
+    + destruct cl; [|discriminate]. injection H as <- _ _. exists []. cbn. rewrite app_nil_r. reflexivity.
+  - destruct (next s).
+    + destruct cl; [|discriminate]. injection H as <- _ _. exists []. cbn. rewrite app_nil_r. reflexivity.
+    + destruct cl as [|cand [|? ?]]; try discriminate. injection H as <- _ _. exists []. cbn. rewrite app_nil_r. reflexivity.
+    + destruct cl as [|cand [|? ?]]; try discriminate. injection H as <- _ _. exists []. cbn. rewrite app_nil_r. reflexivity.
+Qed.
+
+(* a tell (also the tell of a checkpoint by fit_surrogate) leaves sampled exactly as it is *)
+Theorem tell_keeps_sampled c s k cl s' h b : accept c s (Tell k cl) = inl (s', h, b) -> sampled s' = sampled s.
+Proof.
+  unfold accept. cbv zeta. destruct ((n_init s - Z.of_nat k <=? 0) && negb (dummy c)).
+  - destruct cl as [|cand [|? ?]]; try discriminate. intros H. injection H as <- _ _. reflexivity.
+  - destruct cl; [|discriminate]. intros H. injection H as <- _ _. reflexivity.
+Qed.
+
+Theorem run_sampled_ext c : forall tr s sf hs, run c s tr = Some (sf, hs) -> exists l, sampled sf = sampled s ++ l.
+Proof.
+  induction tr as [|e t IH]; intros s sf hs H; cbn [run] in H.
+  - injection H as <- _. exists []. rewrite app_nil_r. reflexivity.
+  - destruct (accept c s e) as [[[s' h] b]|code] eqn:Ea; [|discriminate].
+    destruct (run c s' t) as [[sf' hs']|] eqn:Er; [|discriminate]. injection H as <- _.
+    destruct (accept_sampled_ext _ _ _ _ _ _ Ea) as [l1 E1]. destruct (IH _ _ _ Er) as [l2 E2].
+    exists (l1 ++ l2). rewrite E2, E1, app_assoc. reflexivity.
+Qed.
+
+(* everything handed out by a first part of the history (codes <= 1) is still in sampled after ANY accepted continuation -
+   in particular after a warm start in the middle followed by further asks *)
+Theorem proposed_survive c n0 ini tr1 s1 hs1 tr2 s2 hs2 : fixed c = true ->
+  run c (init_st n0 ini) tr1 = Some (s1, hs1) -> Forall (fun h => (h <= 1)%nat) hs1 ->
+  run c s1 tr2 = Some (s2, hs2) -> incl (returned tr1) (sampled s2).
+Proof.
+  intros Hfix H1 Hle H2.
+  destruct (run_chain c (fun _ => True) (fun _ _ => True) Hfix tr1 _ s1 hs1 H1 Hle) as [_ Es].
+  - intros; exact I.
+  - apply InvS_init.
+  - apply Forall_true.
+  - destruct (run_sampled_ext c tr2 s1 s2 hs2 H2) as [l El]. rewrite El, Es. cbn [init_st sampled app].
+    intros x Hx. apply in_or_app. left; exact Hx.
+Qed.
